@@ -189,6 +189,28 @@ pub fn exec(case: &Value) -> Value {
                         b.push(key(Uniform(lo..hi).sample(&mut g2)));
                     }
                 }
+                "flat" => {
+                    // a box with a flat axis (start = end there) is still drawn component by component:
+                    // one generator step per axis, so what follows it is drawn from the same state
+                    let fl = (st % 3) as usize;
+                    let (mut lo, mut hi) = ([0.0f32, -3.0, 10.0], [1.0f32, 5.0, 12.5]);
+                    hi[fl] = lo[fl];
+                    if st % 7 == 0 {
+                        hi[(fl + 1) % 3] = lo[(fl + 1) % 3];
+                    }
+                    match (st / 3) % 3 {
+                        0 => { let x = Uniform(lo..hi).sample(&mut g1); a.extend(x.iter().map(|c| key(*c))); }
+                        1 => { let x = Uniform(pt3::<f32, ()>(lo[0], lo[1], lo[2])..pt3(hi[0], hi[1], hi[2])).sample(&mut g1);
+                               a.extend([x.x(), x.y(), x.z()].iter().map(|c| key(*c))); }
+                        _ => { let x = Uniform(vec3::<f32, ()>(lo[0], lo[1], lo[2])..vec3(hi[0], hi[1], hi[2])).sample(&mut g1);
+                               a.extend([x.x(), x.y(), x.z()].iter().map(|c| key(*c))); }
+                    }
+                    for i in 0..3 {
+                        b.push(key(Uniform(lo[i]..hi[i]).sample(&mut g2)));
+                    }
+                    a.push(key(f.sample(&mut g1)));
+                    b.push(key(f.sample(&mut g2)));
+                }
                 "tuple" => {
                     let (x, (y, z)) = (f.clone(), (i.clone(), Bernoulli(0.5))).sample(&mut g1);
                     a.extend([key(x), y as i64, z as i64]);
@@ -454,7 +476,7 @@ pub fn gen(args: &Args, out: &mut dyn Write) {
     }
     // composite distributions and reproducibility
     for i in 0..(if thorough { 30_000 } else { 3_000 }) {
-        let what = ["array", "vec", "point", "tuple", "iarray", "same", "iterskip"][i % 7];
+        let what = ["array", "vec", "point", "tuple", "iarray", "same", "iterskip", "flat"][i % 8];
         emit(out, json!({"op": "seq", "s": limbs(rng.next() | 1), "what": what}));
     }
 }
